@@ -574,6 +574,14 @@ def eval_case(chk, case, fx, ref_cache):
     keys_by_id = {i: [k[p] for k in mi['keys']] for p, i in enumerate(order)}
     info['distinct_keys'] = len({tuple(v) for v in keys_by_id.values()}) == len(order)
     info['preserving'] = is_order_preserving(order, f)
+    # records with the same key tuple keep their recorded relative order (C20_order_independent_stable)
+    last, keep = {}, True
+    for i in order:
+        k = tuple(keys_by_id[i])
+        if k in last and last[k] > i:
+            keep = False
+        last[k] = i
+    info['key_order_kept'] = keep
     info['truncated'] = case['drop'] > 0
     info['keys_by_id'] = keys_by_id
     return o, mi, info
@@ -601,7 +609,8 @@ def predicates(case, o, info, f, ref):
     if o.get('sliced'):
         # partial reads must show the same records as the whole array (which own_factors ties to the records)
         out.append(('sliced_read', o['sliced'], None))
-    claim_order = (case['strict'] and info['distinct_keys']) or (not case['strict'] and info['preserving'])
+    claim_order = (case['strict'] and (info['distinct_keys'] or info['key_order_kept'])) or \
+        (not case['strict'] and info['preserving'])
     ref = ref() if claim_order else None        # the un-permuted load is only needed where order independence is claimed
     if ref is not None and ref['status'] == 'ok':
         m = pred_same_as(o, ref)
@@ -659,9 +668,10 @@ def run(chk: Check):
                     '(parse_PAR_header, used to derive the model inputs)']
     chk.extra['unproved_statements'] = [
         'label-level theorems (C20_strict_label_volumes, C20_strict_load_by_label) assume pairwise distinct key tuples; for '
-        'recordings whose keys cannot tell volumes apart (V4 diffusion: repeats counted within a key group) only '
-        'C20_truncated_complete_only / C20_own_factors apply - those cases are compared with the model (correspondence) '
-        'and checked for own factors on every run']
+        'recordings whose keys cannot tell volumes apart (V4 diffusion) order independence is proved for the reorderings '
+        'that keep the order of records with the same key tuple (C20_order_independent_stable; necessary by '
+        'C20_tied_keys_order_dependent), and C20_truncated_complete_only / C20_own_factors apply; a description of their '
+        'volumes by labels does not exist (the keys do not identify them)']
     chk.build()
     chk.run_probes()
     if not chk.model_ok:
@@ -740,6 +750,7 @@ def run(chk: Check):
         if case.get('gi'):
             chk.tagc('general_info:' + ','.join(f'{k}={v}' for k, v in sorted(case['gi'].items())))
         chk.tagc('claim:' + ('strict/distinct-keys' if case['strict'] and info['distinct_keys'] else
+                             'strict/tied-keys,same-key order kept' if case['strict'] and info['key_order_kept'] else
                              'strict/tied-keys(correspondence only)' if case['strict'] else
                              'lax/order-preserving' if info['preserving'] else 'lax/reordered(correspondence only)'))
         mout = mod.get(f'c{ci}', '<missing>')
